@@ -1465,3 +1465,42 @@ package query
 //@       groups[denseOf(partition, view.sortValuesInEachRecord, k) - 1][k - opener(partition, view.sortValuesInEachRecord, k)] == partition[k])
 //@   loop 1 modifies fresh
 //@   modifies *
+
+// ---------------------------------------------------------------------------------------------
+// C15: control transfer. A statement list runs its statements one after the other and stops at the first one that does
+// not end with Terminate (BREAK, CONTINUE, RETURN, EXIT, error): nothing after it is executed. IF runs at most one
+// branch, and a THEN / ELSEIF branch only when its own condition evaluated to TRUE (UNKNOWN does not run a branch).
+// ExecuteStatement (the statement dispatcher) is assumed; a ghost counts its calls.
+//@ ghost var stmtsRun int
+//@ ghost var childRuns int
+//@ ghost var childRunCond int
+//@ func (*Processor).ExecuteStatement
+//@   trusted assumed: executes one statement (the dispatcher over all statement kinds is outside the verified subset)
+//@   ghostset stmtsRun = stmtsRun + 1
+//@   modifies stmtsRun
+//@   modifies * except F:query.ReferenceScope. E:query.BlockScope# F:query.VariableMap. E:map[string][]int# E:[]string#
+//@ func (*Processor).execute!loop
+//@   property C15
+//@   ensures [every-statement-is-run-at-most-once-in-order] stmtsRun - old(stmtsRun) <= len(statements)
+//@   ensures [all-statements-run-when-none-changes-the-flow] result1 == nil && result0 == Terminate ==> stmtsRun - old(stmtsRun) == len(statements)
+//@   loop 1 invariant 0 <= $i && $i <= len(statements) && stmtsRun == old(stmtsRun) + $i && flow == Terminate && err == nil
+//@   modifies *
+//@   modifies stmtsRun
+//@ func (*Processor).executeChild
+//@   trusted assumed: runs the statements in a child scope and closes it (the scope discipline is proved for CreateChild / CloseCurrentBlock); the ghost childRunCond names the value of the last evaluated condition at the moment the child was started
+//@   ensures childRuns == old(childRuns) + 1 && childRunCond == old(value.ternOf(lastEval))
+//@   modifies childRuns, childRunCond
+//@   modifies * except F:query.ReferenceScope. E:query.BlockScope# F:query.VariableMap. E:map[string][]int# E:[]string#
+//@ func (*Processor).IfStmt
+//@   property C15
+//@   ensures [at-most-one-branch] childRuns <= old(childRuns) + 1
+//@   assert after call (*query.Processor).executeChild#1: [then-branch-only-when-its-condition-is-true] childRunCond == ternary.TRUE
+//@   loop 2 invariant childRuns == old(childRuns)
+//@   modifies *
+//@   modifies childRuns, childRunCond
+//@ func (*Processor).Case
+//@   property C15
+//@   ensures [at-most-one-branch] childRuns <= old(childRuns) + 1
+//@   loop 1 invariant childRuns == old(childRuns)
+//@   modifies *
+//@   modifies childRuns, childRunCond
